@@ -414,6 +414,26 @@ def _task_c(args):
                              "signature": f"c:eofbehind:{len(names)}",
                              "detail": f"[{names} in {len(cuts0) + 1} read(s), end of stream right behind] delivered sids {[g[7][0][4] for g in got]}, sent {[e[7][0][4] for e in exp_head]} ({o.end_reason})",
                              "case": {"part": "c", "eof_behind": names, "cuts": list(cuts0), "seed": seed}})
+    # framing is by position: in a noise-free stream a valid packet whose own data bytes happen to contain AA 55 is a packet
+    # like any other (the rule about the first packet after noise does not apply: there is no noise)
+    pm1 = packet_with(40, 0x55AA)                                  # heading raw 0x55AA: 'aa 55' inside the data bytes
+    pm2 = wire.usb_packet(wire.can_id(2, 127250, 0xAA, 255), clientkit.heading_data(41, 12345))
+    if MARK in pm1[2:]:
+        for names_, pk_ in ((["PM"], [pm1]), (["P1", "PM", "P2"], [its["P1"], pm1, its["P2"]]), (["PM", "PM", "P3"], [pm1, pm1, its["P3"]]),
+                            (["P1", "PMid", "P2"], [its["P1"], pm2, its["P2"]])):
+            data = b"".join(pk_)
+            want = [view_of(dec, x) for x in pk_]
+            for cuts0 in [(), tuple(range(7, len(data), 7)), tuple(range(1, len(data)))] + [(c,) for c in range(1, len(data), 3)]:
+                s, o = run_stream(split(data, cuts0))
+                runs += 1
+                got = [v for _, v in o.received]
+                outcomes.add(len(got))
+                if o.end_reason != "quiescent" or got != want:
+                    vios.append({"kind": "packet_lost" if len(got) < len(want) else "unexpected_delivery", "facts": {"part": "c", "mechanism": "marker_inside_valid_packet"},
+                                 "signature": f"c:inner:{names_}",
+                                 "detail": f"[noise-free stream {names_} (PM: a valid packet with AA 55 among its data bytes) cut at {list(cuts0)[:5]}] delivered {len(got)} of {len(want)} packets",
+                                 "case": {"part": "c", "inner": names_, "cuts": list(cuts0), "seed": seed}})
+                    break
     # a reconnection started by a failing write while the old port's read side is still up: bytes that still arrive on the old
     # handle do not belong to the new connection's stream
     for stale in (b"", its["P2"][:5], its["N19"], its["P2"][:12]):
@@ -541,6 +561,8 @@ def replay(ctx, rep):
         return [{"kind": k, "facts": f, "detail": d, "case": c} for k, f, d in judge(seq, its, s, o, make_plan(seq, its))]
     if c["part"] == "c":
         r = _task_c((c.get("seed", 0),))
+        if "inner" in c:
+            return [v for v in r["vios"] if v["case"].get("inner") == c["inner"]][:1]
         if "wfail" in c:
             return [v for v in r["vios"] if v["case"].get("wfail") == c["wfail"] and v["case"]["cuts"] == c["cuts"]][:1]
         if "eof_behind" in c:
